@@ -588,6 +588,20 @@ func normalize(w *engine.World, evs []engine.Event) string {
 	return strings.Join(lines, "")
 }
 
+// normalizeSet is normalize with repeated identical lines collapsed.
+func normalizeSet(w *engine.World, evs []engine.Event) string {
+	seen := map[string]bool{}
+	var kept []engine.Event
+	for _, ev := range evs {
+		k := normalize(w, []engine.Event{ev})
+		if !seen[k] {
+			seen[k] = true
+			kept = append(kept, ev)
+		}
+	}
+	return normalize(w, kept)
+}
+
 // evalC15Built: a pipeline in -> mid -> target where mid is assembled with
 // BuildFunc in world A and is an ordinary function of the same signature in
 // world B. Routes are unique by construction, so the logs must agree exactly.
